@@ -27,7 +27,7 @@ def make_cases(chk):
     quick = chk.tier == "quick"
     cases = []
     shapes = gen.shapes_upto(2, 2)
-    N = 320 if quick else 6000
+    N = 320 if quick else 30000
     for i in range(N):
         n, m = rng.choice([1, 2, 2, 3]), rng.choice([1, 2, 2])
         op = OPS[i % 4]
